@@ -13,6 +13,19 @@ package main
 //	           type that is present replaces its value: same key, different value)
 //	RO o       RegisterOperation (a declared operation / one that is not declared)
 //	RA a       RegisterAuth (a declared scheme / an undeclared one)
+//	H          hostile caller: every accessor that hands out a map or slice (ConsumersFor,
+//	           ProducersFor, AuthenticatorsFor over the whole universe, each single name and the
+//	           empty list; the name lists of a failing Validate()) is called and the harness then
+//	           scribbles over every value it was handed and every argument it passed in
+//	           (all keys deleted, a foreign key added, list entries overwritten)
+//
+// RO additionally comes with a lower-case spelling of the method of an undeclared operation
+// (same method as the upper-case one: the order of spellings is enumerated by the sequences).
+//
+// Frame oracle (needs no model): H changes neither the registrations the API's lookups report
+// nor the verdict of Validate(); a Register* call makes exactly its own item present and leaves
+// every other registration of every category as it was; the JSON-default toggles leave operations,
+// authenticators and non-JSON codecs as they were.
 //
 // Oracle: at every V of the sequence and at a final V after it, Validate() must return what the
 // reference (model.go) says for the registrations PRESENT AT THAT MOMENT. Those are read off
@@ -23,9 +36,11 @@ package main
 // (differential), and when the final Validate() passes, every well-formed request must be served.
 
 import (
+	stderrors "errors"
 	"fmt"
 	"strings"
 
+	oaerrors "github.com/go-openapi/errors"
 	"github.com/go-openapi/loads"
 	"github.com/go-openapi/runtime"
 	"github.com/go-openapi/runtime/middleware/untyped"
@@ -175,6 +190,129 @@ func applyStep(api *untyped.API, st Step, rec *recorder, np set) {
 	}
 }
 
+// regAsSets: the registrations of a present() reading as normalised name sets per category.
+func regAsSets(r Reg) [4]set {
+	out := [4]set{set{}, set{}, set{}, set{}}
+	for _, x := range r.Consumers {
+		out[catConsumers][normMedia(x)] = true
+	}
+	for _, x := range r.Producers {
+		out[catProducers][normMedia(x)] = true
+	}
+	for _, x := range r.Ops {
+		out[catOps][normOp(x.Method, x.Path)] = true
+	}
+	for _, x := range r.Auths {
+		out[catAuths][x] = true
+	}
+	return out
+}
+
+// frame: "" when the step changed the registrations exactly as its name says.
+func frame(step Step, before, after Reg) string {
+	b, a := regAsSets(before), regAsSets(after)
+	switch step.K {
+	case "RC":
+		b[catConsumers][normMedia(step.A)] = true
+	case "RP":
+		b[catProducers][normMedia(step.A)] = true
+	case "RO":
+		b[catOps][normOpName(step.A)] = true
+	case "RA":
+		b[catAuths][step.A] = true
+	case "WJ", "WOJ":
+		// what the toggles do to the JSON codecs is not prescribed here
+		for _, c := range []int{catConsumers, catProducers} {
+			delete(b[c], jsonMime)
+			delete(a[c], jsonMime)
+		}
+	default:
+		return ""
+	}
+	for c := 0; c < 4; c++ {
+		if !b[c].equal(a[c]) {
+			return fmt.Sprintf("the registered %s are now %v, expected %v (the call registers its own item and nothing else changes)", catNames[c], a[c].sorted(), b[c].sorted())
+		}
+	}
+	return ""
+}
+
+// hostileCaller: calls every accessor handing out a map or slice and scribbles over the results
+// and over the arguments; neither the registrations nor the verdict of Validate() may change.
+func hostileCaller(api *untyped.API, u universe, st *histStats) (string, string) {
+	before, jdB := present(api, u)
+	voB := runValidate(api)
+	lists := [][]string{append([]string(nil), u.media...), nil}
+	for _, m := range u.media {
+		lists = append(lists, []string{m})
+	}
+	junkC, junkP, junkA := consumerDouble(&recorder{}, "scribble"), producerDouble(&recorder{}, "scribble"), authDouble(&recorder{}, "scribble")
+	for _, l := range lists {
+		arg := append([]string(nil), l...)
+		cm := api.ConsumersFor(arg)
+		for k := range cm {
+			delete(cm, k)
+		}
+		cm["x-scribble/consumer"] = junkC
+		for i := range arg {
+			arg[i] = "x-scribble/arg"
+		}
+		arg = append([]string(nil), l...)
+		pm := api.ProducersFor(arg)
+		for k := range pm {
+			delete(pm, k)
+		}
+		pm["x-scribble/producer"] = junkP
+		for i := range arg {
+			arg[i] = "x-scribble/arg"
+		}
+	}
+	authLists := [][]string{append([]string(nil), u.auths...), nil}
+	for _, a := range u.auths {
+		authLists = append(authLists, []string{a})
+	}
+	for _, l := range authLists {
+		schemes := map[string]spec.SecurityScheme{}
+		for _, a := range l {
+			schemes[a] = spec.SecurityScheme{}
+		}
+		am := api.AuthenticatorsFor(schemes)
+		for k := range am {
+			delete(am, k)
+		}
+		am["x-scribble-auth"] = junkA
+		for k := range schemes {
+			delete(schemes, k)
+		}
+		schemes["x-scribble-scheme"] = spec.SecurityScheme{}
+	}
+	func() {
+		defer func() { _ = recover() }() // a panicking Validate() is judged by the V steps
+		var vf *oaerrors.APIVerificationFailed
+		if err := api.Validate(); err != nil && stderrors.As(err, &vf) && vf != nil {
+			for i := range vf.MissingRegistration {
+				vf.MissingRegistration[i] = "x-scribble"
+			}
+			for i := range vf.MissingSpecification {
+				vf.MissingSpecification[i] = "x-scribble"
+			}
+		}
+	}()
+	after, jdA := present(api, u)
+	voA := runValidate(api)
+	if st != nil {
+		st.validates += 3
+		st.outcomes["history:hostile-caller"]++
+	}
+	if fmt.Sprintf("%+v", before) != fmt.Sprintf("%+v", after) || jdB != jdA {
+		return "registrations-changed-through-handed-out-value", fmt.Sprintf("the caller only edited maps/slices it was handed by ConsumersFor/ProducersFor/AuthenticatorsFor/Validate, yet the registrations the API reports changed from %+v to %+v", before, after)
+	}
+	if !sameVerdict(voB, voA) {
+		return "validate-changed-through-handed-out-value", fmt.Sprintf("the caller only edited maps/slices it was handed, yet Validate() changed from: %s to: %s", voB, voA)
+	}
+	return "", ""
+}
+
 func sameVerdict(a, b valObs) bool {
 	if (a.Err == "") != (b.Err == "") || a.Panic != b.Panic || sectionCat(a.Section) != sectionCat(b.Section) {
 		return false
@@ -224,7 +362,18 @@ func runHistory(doc *loads.Document, s apib.Spec, init Reg, seq []Step, alpha []
 			}
 			continue
 		}
+		if step.K == "H" {
+			if cl, what := hostileCaller(api, u, st); cl != "" {
+				return "history/" + cl, where(i) + ", then the hostile caller: " + what
+			}
+			continue
+		}
+		before, _ := present(api, u)
 		applyStep(api, step, rec, np)
+		after, _ := present(api, u)
+		if what := frame(step, before, after); what != "" {
+			return "history/registration-frame/" + step.K, fmt.Sprintf("%s, then %s: %s (before %+v, after %+v)", where(i), step, what, before, after)
+		}
 	}
 	vo, reg, jd, cl, what := observe(len(seq))
 	if cl != "" {
@@ -276,6 +425,7 @@ func historyAlphabet(s apib.Spec) []Step {
 		{K: "RP", A: jsonMime}, {K: "RP", A: "text/plain"},
 		{K: "RO", A: declared}, {K: "RO", A: "GET /zzz"},
 		{K: "RA", A: scheme}, {K: "RA", A: "kx"},
+		{K: "H"}, {K: "RO", A: "get /zzy"},
 	}
 	return a
 }
